@@ -77,7 +77,7 @@ def make_cfgs(rng, n, months_choices=(12, 13, 24)):
         pipe = ghelib.PIPE_KINDS[(i // len(GEOMS) + i) % 4]
         phys = ghelib.default_physics() if rng.random() < 0.25 else ghelib.random_physics(rng)
         kind, scale, loads = ghelib.make_profile(rng, kind=rng.choice(["atlanta", "atlanta", "atlanta_neg", "balanced", "spiky", "constant", "heating_only", "cooling_only"]),
-                                                 scale=rng.choice([10 ** rng.uniform(-1.7, 0.0), 10 ** rng.uniform(-1.7, 0.0), 10 ** rng.uniform(-3.0, -1.7), 10 ** rng.uniform(0.0, 0.9)]))
+                                                 scale=rng.choice([10 ** rng.uniform(-1.7, -0.2)] * 5 + [10 ** rng.uniform(-3.0, -1.7), 10 ** rng.uniform(-0.2, 0.9)]))
         window = rng.choice([(60.0, 135.0), (60.0, 135.0), (30.0, 90.0), (100.0, 200.0), (80.0, 80.5)])
         cfg = {
             "id": i,
